@@ -31,7 +31,8 @@ def table(run: Run) -> dict:
     return t
 
 
-def generate(run: Run, tier: str | None = None) -> list[dict]:
+def generate(run: Run, tier: str | None = None, light: bool = False) -> list[dict]:
+    """light: only the text and the predicted outcome (the predicted token streams of a million layouts do not fit in memory)"""
     tab = table(run)
     ws = ["".join(UNIT[u] for u in w) for w in tab["ws"]]
     shapes = tab["shapes"]
@@ -43,7 +44,8 @@ def generate(run: Run, tier: str | None = None) -> list[dict]:
         plausible = len(cfg) > 4 and cfg[4]
         f = os.path.join(run.dir, f"indent{ci}.ndjson")
         run_tlc(run, "Indent", CFG % "Export", env={"OUT": f}, name=f"indent{ci}", consts={"MaxLines": n, "UseWs": usews, "UseShape": useshape, "Plausible": bool(plausible)})
-        rows = sorted(read_export(f), key=lambda c: (c["lines"], c["eol"]))
+        slim = (lambda c: {"lines": c["lines"], "eol": c["eol"], "outcome": c["outcome"], "err": c["err"], "toks": []}) if light else None
+        rows = sorted(read_export(f, keep=slim), key=lambda c: (c["lines"], c["eol"]))
         for c in rows[SEED % stride:: stride]:
             parts = [ws[w - 1] + shapes[sh - 1]["text"] for w, sh in c["lines"]]
             src = "\n".join(parts) + ("\n" if c["eol"] else "")
@@ -57,7 +59,7 @@ def generate(run: Run, tier: str | None = None) -> list[dict]:
                 elif tx == 0:
                     tx = ""
                 toks.append([ty, tx, sl, sc, el, ec])
-            out.append({"src": src, "lines": c["lines"], "outcome": c["outcome"], "err": c["err"], "toks": toks})
+            out.append({"src": src, "outcome": c["outcome"]} if light else {"src": src, "lines": c["lines"], "outcome": c["outcome"], "err": c["err"], "toks": toks})
         os.remove(f)
     out.sort(key=lambda c: c["src"])
     return out
